@@ -18,11 +18,12 @@ import Drv.Json
 import Drv.Grid
 import Drv.Combine
 import Drv.PathRes
+import Drv.Blocks
 open Lean
 
 def handlers : List (String → Json → Option (Except String Json)) :=
   [Drv.handleSegment, Drv.handleBundle,
-   Drv.handleMeta, Drv.handleEquals, Drv.handleConvert, Drv.handleLoad, Drv.handleResource, Drv.handleReader, Drv.handleWrite, Drv.handleJson, Drv.handleGrid, Drv.handleCombine, Drv.handlePathRes]
+   Drv.handleMeta, Drv.handleEquals, Drv.handleConvert, Drv.handleLoad, Drv.handleResource, Drv.handleReader, Drv.handleWrite, Drv.handleJson, Drv.handleGrid, Drv.handleCombine, Drv.handlePathRes, Drv.handleBlocks]
 
 def dispatch (j : Json) : Except String Json := do
   let op ← (← j.getObjVal? "op").getStr?
